@@ -22,7 +22,7 @@ FA = 7            # force_after used by the injected close() calls
 REACT = 3         # a stubborn handler's reaction time
 TAIL = 200        # virtual seconds after the conversation
 LTS_EVENTS = {'Q', 'W', 'B', 'C', 'X', 'D', 'NQ', 'NW', 'BT', 'F', 'O', 'OB', 'ON', 'R', 'L', 'LE', 'AC', 'ACC',
-              'ACT', 'AB', 'A'}
+              'ACT', 'AB', 'A', 'Z', 'XC'}
 
 RULE = ('case = (session kind RPCSession|MessageSession, transport RSTransport|USTransport, '
         'graceful close completes or stalls, event list); crash-point cases = conversation of '
@@ -202,37 +202,44 @@ def random_lts_case(r):
         x = r.random()
         if x < 0.25:
             h += 1
-            kind = r.choice(['Q', 'W', 'W', 'B', 'B', 'C'])
+            kind = r.choice(['Q', 'W', 'W', 'B', 'B', 'C', 'C', 'D' if skind == 'rpc' else 'W'])
             if kind == 'B':
-                evs.append(('B', h, r.choice([0, 1, 3, 3, 8, 20])))
+                evs.append(('B', h, r.choice([0, 1, 3, 3, 8, 20, 40])))
             elif kind == 'C':
-                evs.append(('C', h, r.choice([0, 2, 7])))
+                evs.append(('C', h, r.choice([0, 2, 7, 23, 30, 31, 40])))
             else:
                 evs.append((kind, h))
-        elif x < 0.32 and h:
+        elif x < 0.31 and h:
             evs.append(('F', r.randint(1, h)))
-        elif x < 0.45 and skind == 'rpc':
+        elif x < 0.36 and h:
+            evs.append(('Z', r.randint(1, h)))
+        elif x < 0.47 and skind == 'rpc':
             k += 1
             evs.append(('O', k))
         elif x < 0.52 and skind == 'rpc' and k:
             evs.append(('R', r.randint(1, k)))
         elif x < 0.58:
             evs.append((r.choice(['L', 'LE']),))
-        elif x < 0.72:
+        elif x < 0.70:
             c += 1
             evs.append(('AC', c, r.choice([0, 1, 2, 7, 7, 30])))
-        elif x < 0.76:
+        elif x < 0.73:
             c += 2
             evs.append(('ACC', c - 1, c, r.choice([2, 7])))
-        elif x < 0.80:
+        elif x < 0.76:
             c += 1
             evs.append(('ACT', c, r.choice([2, 7])))
-        elif x < 0.85:
+        elif x < 0.80 and c:
+            evs.append(('XC', r.randint(1, c)))
+        elif x < 0.84:
             evs.append(('AB',))
         else:
-            evs.append(('A', r.choice([1, 1, 2, 3, 4, 5, 7, 10, 23, 30])))
+            evs.append(('A', r.choice([1, 1, 2, 3, 4, 5, 7, 10, 23, 29, 30, 31])))
     evs.append(('A', 100))
-    return ({'skind': skind, 'transport': r.choice(['rs', 'us']), 'stalled': r.random() < 0.4}, evs)
+    cfg = {'skind': skind, 'transport': r.choice(['rs', 'us']), 'stalled': r.random() < 0.4}
+    if r.random() < 0.4:
+        cfg['ptimeout'] = r.choice([5, 12])
+    return (cfg, evs)
 
 
 # ---------------------------------------------------------------------------- running
@@ -243,15 +250,16 @@ def is_lts(evs):
 def fmt_obs(o):
     return (f"hook={o['hook']} closed={int(o['closed'])} live={o['live']} "
             f"tickets={','.join(o['tickets'])} closers={','.join(o['closers'])} "
-            f"aborts={','.join(map(str, o['aborts']))} now={o['now']} closing={int(o['closing'])}")
+            f"abort={o['abort']} lost={int(o['lost'])} now={o['now']} closing={int(o['closing'])}")
 
 
 def oracle(cfg, evs, summ, ptimeout):
-    """the property, clause by clause, on the implementation's own observations"""
+    """the property, clause by clause, on the implementation's own observations (public ones
+    only: task outcomes, hook calls, calls on the asyncio transport, virtual times)"""
     bad = []
     if summ.get('spin'):
-        bad.append(('c08:livelock', f'the code under test ran for {W.WATCHDOG_S} s of wall-clock '
-                                    f'time without yielding to the event loop'))
+        bad.append(('c08:livelock', f'the code under test used {summ["spin"]:.0f} s of CPU time '
+                                    f'without yielding to the event loop (twice: the case was re-run)'))
         return bad
     if summ['stall'] is not None:
         i, kind = summ['stall']
@@ -318,14 +326,20 @@ def oracle(cfg, evs, summ, ptimeout):
     if summ['leftover_session_tasks']:
         bad.append(('c08:task-left', f'{summ["leftover_session_tasks"]} task(s) started by the '
                                      f'session are still alive at {summ["now"]}'))
-    if not summ['closed_event']:
-        bad.append(('c08:closed-event-not-set', 'the transport never reported closed'))
-    # close()
+    # close(): "returns", i.e. when the connection is closed: the hook has run and every handler
+    # is done - not before; "forcing an abort if a graceful close does not finish in time": by
+    # start + force_after the connection is lost or abort() has been called
     t_closed = None
-    if summ['hook_times'] and summ['closed_event']:
+    if summ['hook_times'] and not any(r['outcome'] == 'pending' for r in summ['handlers'].values()):
         t_closed = max([summ['hook_times'][0]] +
                        [r['done_at'] for r in summ['handlers'].values() if r['done_at'] is not None])
     for c, r in summ['closers'].items():
+        if r['app_cancelled'] is not None:
+            # the application itself cancelled this task: it is released by that
+            if r['outcome'] == 'pending':
+                bad.append(('c08:close-did-not-return', f'close() {c}, cancelled by the application '
+                                                        f'at {r["app_cancelled"]}, still has not ended'))
+            continue
         if r['outcome'] == 'pending':
             bad.append(('c08:close-did-not-return', f'close() {c} called at {r["start"]} has not '
                                                     f'returned at {summ["now"]}'))
@@ -335,31 +349,40 @@ def oracle(cfg, evs, summ, ptimeout):
             continue
         if t_closed is None:
             continue
-        want = r['start'] if r['closed_at_call'] else max(r['start'], t_closed)
         # returning *before* everything is torn down breaks "returns when closed"; returning
         # later than that is only a difference from the model (reported by the correspondence)
-        if r['done_at'] < want:
+        if r['done_at'] < t_closed:
             bad.append(('c08:close-returned-early',
                         f'close() {c} called at {r["start"]} returned at {r["done_at"]}, but the '
                         f'connection was only fully closed (hook run, handlers done) at {t_closed}'))
-        if not r['closed_at_call'] and t_closed > r['start'] + r['fa'] \
-                and (r['start'] + r['fa']) not in summ['aborts']:
+        due = r['start'] + r['fa']
+        if t_closed > due and not (summ['lost_at'] is not None and summ['lost_at'] <= due) \
+                and not any(a <= due for a in summ['aborts']):
             bad.append(('c08:no-forced-abort',
                         f'close(force_after={r["fa"]}) {c} called at {r["start"]}: not closed by '
-                        f'{r["start"] + r["fa"]} (closed at {t_closed}) and no abort() at that time '
-                        f'(aborts at {summ["aborts"]})'))
+                        f'{due} (closed at {t_closed}), and by then the connection was neither '
+                        f'lost (at {summ["lost_at"]}) nor aborted (abort() at {summ["aborts"]})'))
     for i, o in enumerate(summ['aborters']):
         if o != 'returned':
             bad.append(('c08:abort-did-not-return', f'abort() {i}: {o}'))
     return bad
 
 
+NO_STATS = {'nontrivial': False, 'pending_at_loss': 0, 'in_body_at_loss': 0, 'lost': False,
+            'aborts': 0, 'forced': 0, 'closers': 0, 'spin_retries': 0}
+
+
 def run_one(repo, cfg, evs):
     lts = is_lts(evs)
-    ptimeout = 10 ** 6 if lts else 30
-    full = dict(cfg, ptimeout=ptimeout)
+    ptimeout = cfg.get('ptimeout') or 30
+    full = dict(cfg, ptimeout=ptimeout, plain=lts)
     obs, summ = W.run_events(repo, full, evs)
-    bad = oracle(cfg, evs, summ, None if lts else ptimeout)
+    retries = 0
+    if summ.get('spin'):
+        # the CPU budget of one case ran out: only a repeatable spin is an observation
+        retries = 1
+        obs, summ = W.run_events(repo, full, evs, budget=2 * W.CPU_BUDGET_S)
+    bad = oracle(cfg, evs, summ, ptimeout)
     stats = {
         'nontrivial': bool(summ['pending_at_loss'] or summ['in_body_at_loss']),
         'pending_at_loss': len(summ['pending_at_loss'] or []),
@@ -367,16 +390,16 @@ def run_one(repo, cfg, evs):
         'lost': bool(summ['lost_delivered']),
         'aborts': len(summ['aborts']),
         'forced': sum(1 for c in summ['closers'].values()
-                      if (c['start'] + c['fa']) in summ['aborts']),
+                      if summ['first_abort'] is not None and summ['first_abort'] == c['start'] + c['fa']),
         'closers': len(summ['closers']),
-        'msg_task': summ['message_task'],
+        'spin_retries': retries,
     }
     return bad, ([fmt_obs(o) for o in obs] if lts and summ['stall'] is None else None), stats
 
 
 def _work(args):
-    """a worker gives up on its chunk after the first case that trips the wall-clock watchdog
-    (every further case would cost the same seconds); the skipped ones come back as None"""
+    """a worker gives up on its chunk after the first case that spins (twice) through its CPU
+    budget (every further case would cost the same seconds); the skipped ones come back as None"""
     repo, jobs = args
     out = []
     for cfg, evs in jobs:
@@ -395,11 +418,9 @@ def _work(args):
             where = next(f for f in reversed(frames) if os.path.realpath(f.filename).startswith(rp))
             r = ([('c08:unexpected-exception',
                    f'{type(e).__name__}: {e} raised at {os.path.basename(where.filename)}:'
-                   f'{where.lineno} ({where.name}) during the scenario')], None,
-                 {'nontrivial': False, 'pending_at_loss': 0, 'in_body_at_loss': 0, 'lost': False,
-                  'aborts': 0, 'forced': 0, 'closers': 0, 'msg_task': None})
+                   f'{where.lineno} ({where.name}) during the scenario')], None, dict(NO_STATS))
         out.append(r)
-        if any(k == 'c08:livelock' and 'wall-clock' in why for k, why in r[0]):
+        if any(k == 'c08:livelock' and 'CPU time' in why for k, why in r[0]):
             out += [None] * (len(jobs) - len(out))
             break
     return out
@@ -417,15 +438,20 @@ def run_all(ctx, jobs):
 
 
 def case_of(cfg, evs):
-    return {'skind': cfg['skind'], 'transport': cfg['transport'], 'stalled': bool(cfg['stalled']),
-            'events': ' ; '.join(W.ser(e) for e in evs)}
+    c = {'skind': cfg['skind'], 'transport': cfg['transport'], 'stalled': bool(cfg['stalled']),
+         'events': ' ; '.join(W.ser(e) for e in evs)}
+    if cfg.get('ptimeout'):
+        c['ptimeout'] = cfg['ptimeout']
+    return c
 
 
 def model_line(ctx, cfg, evs):
     rt = int(round((ctx.facts or {}).get('sent_request_timeout', 30.0)))
     dfa = (ctx.facts or {}).get('default_force_after', 30)
     dfa = int(dfa) if isinstance(dfa, (int, float)) else 30
-    return f'{rt} {int(bool(cfg["stalled"]))} {dfa} ; ' + ' ; '.join(W.ser(e) for e in evs)
+    pt = int(cfg.get('ptimeout') or 30)
+    return (f'{rt} {pt} {int(bool(cfg["stalled"]))} {dfa} 1 ; '
+            + ' ; '.join(W.ser(e) for e in evs))
 
 
 def evaluate(ctx, jobs, res, label, chunk=40000):
@@ -472,7 +498,8 @@ def _evaluate(ctx, jobs, res, label):
         res.count('handlers_running_at_loss', stats['in_body_at_loss'])
         res.count('forced_aborts', stats['forced'])
         res.count('close_calls', stats['closers'])
-        res.count('message_task_' + str(stats['msg_task']))
+        if stats['spin_retries']:
+            res.count('cpu_budget_retries', stats['spin_retries'])
         if stats['nontrivial']:
             res.nontrivial((cfg['skind'], cfg['transport'], cfg['stalled'], case['events']))
         if i < 2:
@@ -481,10 +508,13 @@ def _evaluate(ctx, jobs, res, label):
 
 
 def parse_case(line):
-    """`<rpc|msg> <rs|us> <stalled 0|1> | ev ; ev ; ...`"""
+    """`<rpc|msg> <rs|us> <stalled 0|1> [processing_timeout] | ev ; ev ; ...`"""
     head, evs = line.split('|', 1)
-    sk, tr, st = head.split()
-    return ({'skind': sk, 'transport': tr, 'stalled': st == '1'}, W.parse_events(evs))
+    f = head.split()
+    cfg = {'skind': f[0], 'transport': f[1], 'stalled': f[2] == '1'}
+    if len(f) > 3:
+        cfg['ptimeout'] = int(f[3])
+    return (cfg, W.parse_events(evs))
 
 
 def run(ctx):
@@ -551,5 +581,7 @@ def replay(ctx, case):
     res = Results()
     cfg = {'skind': case.get('skind', 'rpc'), 'transport': case.get('transport', 'rs'),
            'stalled': bool(case.get('stalled', False))}
+    if case.get('ptimeout'):
+        cfg['ptimeout'] = int(case['ptimeout'])
     evaluate(ctx, [(cfg, W.parse_events(case['events']))], res, 'replay')
     return res.finish('replay of one recorded case')
